@@ -101,6 +101,10 @@ func registerIntrinsics(e *Engine) {
 		e.unsupported("json.Marshal of %v", iv.T)
 		return nil, true
 	}
+	I[nd+"Concrete"] = func(e *Engine, st *State, th *Thread, args []Value, call *ssa.CallCommon) (Value, bool) {
+		return e.i64(e.concretize(st, args[0].(*smt.Term), "nd.Concrete")), true
+	}
+	I[nd+"ConcreteU64"] = I[nd+"Concrete"]
 	I[nd+"Symbolic"] = func(e *Engine, st *State, th *Thread, args []Value, call *ssa.CallCommon) (Value, bool) {
 		return e.C.True, true
 	}
@@ -190,6 +194,7 @@ func registerIntrinsics(e *Engine) {
 	registerSync(e)
 	registerLib(e)
 	registerTime(e)
+	registerStats(e)
 }
 
 func (e *Engine) fieldCell(p Ptr, t types.Type, path ...string) Ptr {
